@@ -150,10 +150,32 @@ func altPair(a, b tree.Root) tree.Root {
 	return sha256.Sum256(v[:])
 }
 
+// zwinPair is a pluggable hash whose outputs are mostly zero bytes: only a 4-byte window (at a
+// position that depends on the input) of sha256(0x02 || a || b) is kept, and its first byte is
+// made non-zero.  A root "looks empty" to any shortcut that inspects only part of it.
+func zwinPair(a, b tree.Root) tree.Root {
+	var v [65]byte
+	v[0] = 2
+	copy(v[1:33], a[:])
+	copy(v[33:], b[:])
+	s := sha256.Sum256(v[:])
+	p := int(s[31]%8) * 4
+	var o tree.Root
+	copy(o[p:p+4], s[p:p+4])
+	o[p] |= 1
+	return o
+}
+
 // withCfg runs f under a hash configuration.  "sha": the library defaults, wrapped by a
 // recorder that checks every call of the library's own hash against crypto/sha256.
 // "alt": tree.InitZeroHashes(altPair, 64) — the documented pluggability path.
 func withCfg(cfg string, f func(h tree.HashFn)) {
+	if cfg == "zwin" {
+		tree.InitZeroHashes(zwinPair, 64)
+		defer tree.InitZeroHashes(tree.Hash, 64)
+		f(func(a, b tree.Root) tree.Root { hashCalls++; return zwinPair(a, b) })
+		return
+	}
 	if cfg == "alt" {
 		tree.InitZeroHashes(altPair, 64)
 		defer tree.InitZeroHashes(tree.Hash, 64)
